@@ -457,9 +457,36 @@ func famHash(dir string, seed int64, tier string) {
 		{open: sb.KindMap, close: sb.KindMapEnd, items: []*gval{tk(sb.KindInt, 1), arr(), tk(sb.KindInt, 2), named("n", arr(arr()))}},
 		{open: sb.KindTuple, close: sb.KindTupleEnd, items: []*gval{arr(), arr()}},
 	}
+	nSmallShapes := len(shapes)
+	// payload lengths around the sizes of pooled copy buffers (32 KiB and its multiples), for every kind that
+	// carries a string or a blob; compressible, so that the model evaluates them too
+	for _, n := range []int{32767, 32768, 32769, 65536, 98304} {
+		str := strings.Repeat("s", n-1) + "e"
+		blob := append(bytes.Repeat([]byte{'b'}, n-1), 'e')
+		shapes = append(shapes, tk(sb.KindString, str), tk(sb.KindLiteral, str), tk(sb.KindBytes, blob), tk(sb.KindRef, blob),
+			arr(tk(sb.KindString, str), tk(sb.KindInt, 1)))
+		if n == 32768 {
+			shapes = append(shapes, named(str, tk(sb.KindInt, 1)), arr(tk(sb.KindString, strings.Repeat("s", n-1)+"f")))
+		}
+	}
+	// nesting deeper than a preallocated frame stack (33, 65, 129 levels), a sibling beside every nested value
+	for _, d := range []int{32, 33, 34, 65, 66, 130} {
+		v := tk(sb.KindInt, 0)
+		for i := 0; i < d; i++ {
+			if i%4 == 3 {
+				v = named("n", v)
+			} else if i%2 == 0 {
+				v = arr(v, tk(sb.KindInt, i))
+			} else {
+				v = arr(tk(sb.KindInt, i), v)
+			}
+		}
+		shapes = append(shapes, v)
+	}
 	for _, v := range shapes {
 		items = append(items, item{v.flatten(nil), v, "shape"})
 	}
+	nModelShapes := len(shapes)
 	for i := 0; i < nvals; i++ {
 		v := randValue(r, 1+r.Intn(5), r.Intn(3) == 0)
 		ts := v.flatten(nil)
@@ -495,9 +522,12 @@ func famHash(dir string, seed int64, tier string) {
 		}
 	}
 
+	_ = nModelShapes
 	for n, it := range items {
 		ts := it.ts
-		desc := it.tag + ": " + descTokens(ts)
+		// the big and the deep shapes: Go oracles only
+		goOnly = n >= nSmallShapes && n < nModelShapes
+		desc := it.tag + ": " + truncate(descTokens(ts), 2000)
 		repH.count("tag:" + it.tag)
 		for _, t := range ts {
 			repH.count("kind:" + kindClass(t.Kind))
@@ -687,6 +717,7 @@ func famHash(dir string, seed int64, tier string) {
 	wH.flush()
 	wT.flush()
 	wR.flush()
+	goOnly = false
 	repH.write(dir)
 	repT.write(dir)
 	repR.write(dir)
